@@ -147,6 +147,18 @@ def check_case(ctx, cs):
             ok, r = _try(ctx, site, tg, {}, fn)
             if ok and not close_seq(r, e):
                 ctx.violate(site, tg, {}, {"expected": e, "got": r})
+        for mv in o["matvec"]:
+            M, v = [[float(x) for x in r] for r in mv["M"]], [float(x) for x in mv["v"]]
+            small = {"M": mv["M"], "v": mv["v"]}
+            t2 = tg + ["matrix_vector", "%dx%d" % (len(M), len(M[0]))]
+            ctx.count(("matvec", str(mv["M"])), sample={"op": "matrix x vector", **small, "res": mv["res"]})
+            ok, r = _try(ctx, "linalg.matrix_multiply", t2, small, lambda: linalg.matrix_multiply(M, v))
+            if ok and not close_seq(list(r), [float(x) for x in mv["res"]]):
+                ctx.violate("linalg.matrix_multiply", t2, small, {"expected": mv["res"], "got": r})
+            # the same product with the vector as a one-column matrix
+            ok, r = _try(ctx, "linalg.matrix_multiply", t2 + ["column"], small, lambda: linalg.matrix_multiply(M, [[x] for x in v]))
+            if ok and not close_seq([list(x) for x in r], [[float(x)] for x in mv["res"]]):
+                ctx.violate("linalg.matrix_multiply", t2 + ["column"], small, {"expected": mv["res"], "got": r})
         for pr in o["pairs"]:
             a, b = [float(x) for x in pr["a"]], [float(x) for x in pr["b"]]
             small = {"a": pr["a"], "b": pr["b"]}
